@@ -34,6 +34,16 @@ func c30(r *sim.R) *sim.Violation {
 	ts := sim.Pick(t, []int64{1700000100, 1700006100 - 600, 1701388500 - 300, 1704066900 - 600})
 	var recs []*woRec
 	m0 := model.NewStore()
+	if t.Draw(6) == 0 {
+		// 31 older days, so that the current day is the 32nd directory of the range and a day the
+		// writer starts during the query is alone in the next bulk of 32 directories of a worker
+		for k := 31; k >= 1; k-- {
+			b := model.FlowBlock(ts-int64(k)*86400, model.GenFlows(t, 2, true), 0)
+			m0.Add("eth0", b)
+			recs = append(recs, &woRec{iface: "eth0", blk: b, start: -2, end: -2})
+		}
+		r.Probe("range_of_32_day_directories")
+	}
 	for i, n := 0, 1+t.Draw(3); i < n; i++ {
 		ts += 300
 		b := model.FlowBlock(ts, model.GenFlows(t, 5, true), 0)
